@@ -69,6 +69,21 @@ CHECKS = {
 }
 PENDING = {}
 
+# what changed in a check after its text above was written (kept separate so that the history is visible; DESIGN.md 9.2-9.6)
+LATER = {
+ 'C01': 'Corpus also holds composite terminals (a terminal built from other terminals and regexps with alternations).',
+ 'C03': 'A CYK ParseError on a member is a violation on grammars without empty rules; corpus: template instances for a literal vs the named terminal it coincides with, parallel chains of unit rules under 24 sets of rule names. A construction that exceeds the step budget is counted, not judged.',
+ 'C04': 'Cyclic grammars: a budget overrun is a violation only if building the forest or a counting ForestVisitor walk over it does not end within the budget either (the number of explicit trees is exponential there).',
+ 'C06': 'A non-UnexpectedInput exception raised by parse() on a member with propagate_positions is a violation; corpus: explicitly empty rules next to filtered tokens under ?-rules.',
+ 'C07': 'The reference applies the keyword exception to every same-priority string terminal, decided on the matched text (no "which the regexp can spell" condition); a fifth of the term sets ignore one ordinary terminal.',
+ 'C08': 'Also: $END after a last token with an empty value; "allowed" of lexer errors under Earley+basic must contain the reference\'s next-terminal set (keywords inside a regexp).',
+ 'C09': 'Quick: every batch pairs the alt-group kind with bounds between 12 and 49 under a 4M-step construction budget. Thorough: every pair up to 8 for every kind and engine, every pair up to 140 for LALR+terminal, random bounds up to 600+400 until the budget is used.',
+ 'C10': 'Two ambiguous Earley configurations with priorities; history step "build a sibling instance from this instance\'s own Grammar object with another priority mode".',
+ 'C13': 'Terminal-ness is taken from the symbols (not str.isupper()); 30% of the grammars get literals "__" and "_1"; resume_parse() is run on the original, a copy() and an as_immutable() of every error state in random order; corpus grammar with empty nodes that are positioned by a later reduction.',
+ 'C14': 'A candidate from which the lexer first skips ignored text is not a match at that offset: the offsets inside the ignored text are candidates of their own (the statement, and lark\'s own test_scan_start_inside_ignored_regex_span).',
+ 'C20': 'Cyclic grammars: walks that follow every path (no single_visit) are excused for exceeding the step budget iff the walks that are linear in the forest (single_visit, the one-node walker) ended on the same forest.',
+}
+
 def main():
     props = [json.loads(l) for l in open(os.path.join(V, 'properties.jsonl'))]
     checks = []
@@ -87,7 +102,7 @@ def main():
             'replay_cmd_template': './check %s --replay {path}' % pid,
             'engine': 'vlark',
             'level_claimed': {'category': c['level'], 'text': c['text'], 'design_ref': 'DESIGN.md section ' + c['ref']},
-            'level_note': c['note'],
+            'level_note': c['note'] + ((' Later: ' + LATER[pid]) if pid in LATER else ''),
             'technique': c['technique'],
         })
     m = {
